@@ -393,6 +393,15 @@ func finishCheck(run *CheckRun, rebaseline bool) int {
 		fmt.Printf("  failed obligation %s (%d instances, first: %s) [%s via %s] %s %s\n", k, len(rs), r.Name, r.Status, r.Backend, r.Note, firstLines(r.Detail, 8))
 		fmt.Printf("VIOLATION property=%s replay=%s%s\n", prop, path, suffix)
 	}
+	// obligations excluded by a known finding are not part of the claim
+	var claimed []*ObResult
+	for _, r := range run.Results {
+		if !r.OK && isKF(r.Name) != nil {
+			continue
+		}
+		claimed = append(claimed, r)
+	}
+	run.Results = claimed
 	writeEvidence(run, kfLines, violations)
 	n, d := 0, 0
 	for _, r := range run.Results {
